@@ -12,14 +12,25 @@ TECHNIQUE = "model-based generation of event histories (Hypothesis) over the rea
 RULE = ("A case is a history: 1-3 fake nodes that hold every user request, one statement executed through the real "
         "Session.execute_async with 0-3 speculative executions, a scripted retry policy, an optional client timeout, "
         "and a generated list of events (answer the i-th held request with rows/void/one of 9 server errors/connection "
-        "close/reset, advance the virtual clock, register another callback pair, call result() from a client thread, "
+        "close/reset, advance the virtual clock, register another callback pair, register a CHAINING pair (its handlers, "
+        "when they run, attach a further pair -- add_callbacks, or add_callback/add_errback alone -- to the same future from "
+        "inside the delivery of the outcome, to depth 1-2; the pair registered right after execute_async may chain too), "
+        "answer a held request while another client thread attaches a pair (the tape places the registration before, "
+        "inside or after the delivery), call result() from a client thread, "
         "fetch the next page when the result has more pages -- a page fetch is an execution of its own), "
         "plus a schedule tape.  After the events every still-held request is answered, or -- drain mode silent, with a "
         "timeout -- none is and time passes beyond the timeout, which alone must complete the request (speculative "
         "policies asking for more attempts than the plan has hosts included).  Non-trivial: at least 2 requests of this execution reached a server (speculative execution or "
-        "retry) and at least 2 responses were delivered.  Distinct by case digest.")
+        "retry) and at least 2 responses were delivered.  Every attached function is owed exactly one invocation per outcome "
+        "(a lone callback/errback attached by a chaining handler: one if the outcome is of its kind, none otherwise), "
+        "including functions attached while the outcome is being delivered and on every later page; at most 24 pairs per case.  "
+        "Distinct by case digest.")
 ASSUMPTIONS = ["network, clock, executor and event loop are simulated (sim/); Cluster, Session, pools, connections, "
                "ResponseFuture, policies are the real classes",
+               "handlers run where the driver runs them (event-loop actor, or the attaching thread when the outcome is already "
+               "there); a handler that attaches a further function to its own future is ordinary documented use "
+               "(add_callback: 'if the final result has already been seen ... the callback will be called immediately'); "
+               "handlers never raise and never block",
                "pre-emption only at blocking operations (quick) / additionally at every lock operation and clock read (thorough)"]
 
 ANSWERS = ["rows", "rows", "rows_more", "void"] + U.ERROR_KINDS + ["close", "reset"]
@@ -31,6 +42,13 @@ def s_case(gran):
         st.tuples(st.just("answer"), st.integers(0, 5), st.sampled_from(ANSWERS)),
         st.tuples(st.just("advance"), st.sampled_from([0.01, 0.05, 0.06, 0.2, 0.5, 1.0])),
         st.tuples(st.just("add_cb")),
+        # a pair whose handlers, when they run, attach a further pair to the same future (callback chaining):
+        # with add_callbacks ("pair") or with add_callback / add_errback alone ("same" side as the running handler);
+        # depth 2: the attached pair chains once more
+        st.tuples(st.just("add_chain"), st.sampled_from(["pair", "same"]), st.sampled_from([1, 1, 2])),
+        # another client thread attaches a pair WHILE the i-th held request is being answered (the schedule tape
+        # decides where in the delivery the registration lands)
+        st.tuples(st.just("answer_add"), st.integers(0, 5), st.sampled_from(ANSWERS)),
         st.tuples(st.just("result")),
         st.tuples(st.just("next_page")),
     )
@@ -67,7 +85,53 @@ def s_case(gran):
         "mif": st.sampled_from([None, 3, 4]),
         # what happens to requests still unanswered after the events: answered, or (with a timeout) never
         "drain": st.sampled_from(["answer", "answer", "silent"]),
+        # the pair registered right after execute_async: plain, or chaining (how, depth) as in the add_chain event
+        "p0_chain": st.sampled_from([None, None, None, ["pair", 1], ["same", 1], ["pair", 2], ["same", 2]]),
     })
+
+
+MAX_PAIRS = 24     # chained pairs attach a new pair on every page; bound the growth
+
+
+class _Pair(U.CallbackPair):
+    """a (callback, errback) pair that may, from inside its handlers, attach a further pair to the same future.
+    sides: which of the two functions are registered; origin: how it was attached (finding-key feature)"""
+
+    def __init__(self, name, env, sides=("cb", "eb"), chain=None, origin="plain"):
+        U.CallbackPair.__init__(self, name)
+        self.env, self.sides, self.chain, self.origin = env, tuple(sides), chain, origin
+        self.kids = 0
+
+    def on_result(self, result):
+        self.cb.append(result)
+        self._chain("cb")
+
+    def on_error(self, exc):
+        self.eb.append(exc)
+        self._chain("eb")
+
+    def attach(self, fut):
+        if self.sides == ("cb", "eb"):
+            fut.add_callbacks(self.on_result, self.on_error)
+        elif self.sides == ("cb",):
+            fut.add_callback(self.on_result)
+        else:
+            fut.add_errback(self.on_error)
+
+    def _chain(self, side):
+        env = self.env
+        if not self.chain or len(env["pairs"]) >= MAX_PAIRS or self.total > 1:
+            return
+        how, depth = self.chain
+        self.kids += 1
+        kid = _Pair("%s.%d" % (self.name, self.kids), env, sides=("cb", "eb") if how == "pair" else (side,),
+                    chain=[how, depth - 1] if depth > 1 else None, origin="attached-during-delivery")
+        env["pairs"].append(kid)
+        env["chained"] += 1
+        try:
+            kid.attach(env["fut"])
+        except Exception as e:  # noqa -- reported by the interpreter (must not vanish in the event loop)
+            env["attach_errors"].append(e)
 
 
 def interpret(case, ctx):
@@ -103,10 +167,13 @@ def _run(case, ctx, sim):
     sim.settle()
     stmt = SimpleStatement("SELECT k FROM t", is_idempotent=case["idempotent"])
 
-    pairs = [U.CallbackPair("p0")]
+    env = {"pairs": [], "fut": None, "chained": 0, "raced": 0, "attach_errors": []}
+    pairs = env["pairs"]
+    pairs.append(_Pair("p0", env, chain=case.get("p0_chain"),
+                       origin="chaining" if case.get("p0_chain") else "plain"))
     results = []      # outcomes of blocking result() calls
-    fut = sim.call(session.execute_async, stmt)
-    fut.add_callbacks(pairs[0].on_result, pairs[0].on_error)
+    fut = env["fut"] = sim.call(session.execute_async, stmt)
+    pairs[0].attach(fut)
     sent_marker = len(net.requests)
 
     def my_requests():
@@ -123,36 +190,69 @@ def _run(case, ctx, sim):
     pages = [0]
 
     def check_counts(where):
+        for e in env["attach_errors"]:
+            ctx.fail(["C14.add_callbacks", "inside-handler", "raises", type(e).__name__],
+                     "%s: attaching a callback from inside a handler of the same future raised %r" % (where, e))
+            return False
         for p in pairs:
             if p.total > 1:
                 kinds = ("both" if p.cb and p.eb else ("callback-twice" if p.cb else "errback-twice"))
-                ctx.fail(["C14.once", kinds],
-                         "%s: callback pair %s invoked %d times (results %d, errors %d: %r)" % (
-                             where, p.name, p.total, len(p.cb), len(p.eb), [type(e).__name__ for e in p.eb]))
+                ctx.fail(["C14.once", kinds] + ([p.origin] if p.origin in ("attached-during-delivery",
+                                                                            "attached-concurrently") else []),
+                         "%s: callback pair %s (%s, sides %s) invoked %d times (results %d, errors %d: %r)" % (
+                             where, p.name, p.origin, "+".join(p.sides), p.total, len(p.cb), len(p.eb),
+                             [type(e).__name__ for e in p.eb]))
                 return False
         return True
+
+    def missing():
+        """pairs that were not invoked exactly as often as the outcome of the complete page demands: a pair with both
+        functions once; a lone callback (errback) attached by a chaining handler once if the outcome is a result
+        (an error), else not at all.  The outcome kind is what p0 (both functions) saw."""
+        side = "cb" if pairs[0].cb else "eb"
+        return [p for p in pairs if p.total != (1 if side in p.sides else 0)]
+
+    def release_one(ev):
+        held = U.all_held(net)
+        if not held:
+            return False
+        node, conn, req = held[ev[1] % len(held)]
+        if ev[2] == "rows_more":
+            U.release(net, node, conn, req, "rows", paging_state=b"ps%d" % delivered)
+        else:
+            U.release(net, node, conn, req, ev[2])
+        return True
+
+    def racing_attach(p):
+        try:
+            p.attach(fut)
+        except Exception as e:  # noqa
+            env["attach_errors"].append(e)
 
     ok = True
     for ev in case["events"]:
         if ev[0] == "answer":
-            held = U.all_held(net)
-            if not held:
+            if not release_one(ev):
                 continue
-            node, conn, req = held[ev[1] % len(held)]
-            if ev[2] == "rows_more":
-                U.release(net, node, conn, req, "rows", paging_state=b"ps%d" % delivered)
-            else:
-                U.release(net, node, conn, req, ev[2])
             delivered += 1
+        elif ev[0] == "answer_add":
+            if len(pairs) < MAX_PAIRS:
+                p = _Pair("r%d" % len(pairs), env, origin="attached-concurrently")
+                pairs.append(p)
+                env["raced"] += 1
+                sim.spawn(racing_attach, p)
+            if release_one(ev):
+                delivered += 1
         elif ev[0] == "next_page":
             # a page fetch is an execution of its own: exactly one more outcome per registered pair
             # (also after a page fetch that FAILED: the paging state of the last delivered page is still
             # there and the application may try that page again)
             if fut._event.is_set() and fut.has_more_pages:
+                for p in missing():
+                    ctx.fail(["C14.delivered", "never-called"],
+                             "page complete but callback pair %s (%s, sides %s) was invoked %d times" % (
+                                 p.name, p.origin, "+".join(p.sides), p.total))
                 for p in pairs:
-                    if p.total != 1:
-                        ctx.fail(["C14.delivered", "never-called"],
-                                 "page complete but callback pair %s was invoked %d times" % (p.name, p.total))
                     del p.cb[:]
                     del p.eb[:]
                 del results[:]
@@ -161,11 +261,14 @@ def _run(case, ctx, sim):
                     sim.call(fut.start_fetching_next_page)
         elif ev[0] == "advance":
             sim.advance(ev[1])
-        elif ev[0] == "add_cb":
-            p = U.CallbackPair("p%d" % len(pairs))
+        elif ev[0] in ("add_cb", "add_chain"):
+            if len(pairs) >= MAX_PAIRS:
+                continue
+            chain = [ev[1], ev[2]] if ev[0] == "add_chain" else None
+            p = _Pair("p%d" % len(pairs), env, chain=chain, origin="chaining" if chain else "plain")
             pairs.append(p)
             with ctx.driver(["C14.add_callbacks"]):
-                fut.add_callbacks(p.on_result, p.on_error)
+                p.attach(fut)
         elif ev[0] == "result":
             sim.spawn(blocking_result)
         sim.settle()
@@ -204,11 +307,11 @@ def _run(case, ctx, sim):
         elif not U.all_held(net) and not done:
             ctx.fail(["C14.completes"], "all %d requests answered/failed and time passed, but the future has no outcome" % n_sent)
         elif done:
-            for p in pairs:
-                if p.total != 1:
-                    ctx.fail(["C14.delivered", "never-called"],
-                             "future is complete but callback pair %s was invoked %d times" % (p.name, p.total))
-                    break
+            for p in missing():
+                ctx.fail(["C14.delivered", "never-called"],
+                         "future is complete but callback pair %s (%s, sides %s) was invoked %d times" % (
+                             p.name, p.origin, "+".join(p.sides), p.total))
+                break
             kinds = set("cb" if p.cb else "eb" for p in pairs if p.total == 1)
             if len(kinds) > 1:
                 ctx.fail(["C14.consistent", "pairs-disagree"], "some pairs saw a result and others an error")
@@ -237,6 +340,18 @@ def _run(case, ctx, sim):
         ctx.label("silent-drain")
         if case["spec"] and case["idempotent"] and case["spec"] >= case["hosts"]:
             ctx.label("silent-drain:more-speculative-attempts-than-hosts")
+    if env["chained"]:
+        ctx.label("chained:pair-attached-from-inside-a-handler",
+                  "chained:on-%s" % ("error" if any(p.eb for p in pairs if p.origin == "attached-during-delivery")
+                                     else "result"))
+        if any(p.origin == "attached-during-delivery" and p.kids for p in pairs):
+            ctx.label("chained:depth>=2")
+        if pages[0]:
+            ctx.label("chained:across-page-fetches")
+    elif any(p.chain for p in pairs):
+        ctx.label("chained:configured-but-no-outcome-reached-it")
+    if env["raced"]:
+        ctx.label("raced:pair-attached-by-another-thread-during-an-answer")
     if any(p.eb for p in pairs):
         ctx.label("outcome:error")
     elif any(p.cb for p in pairs):
